@@ -98,13 +98,25 @@ class _Gen:
         return ops
 
 
+def _abs_labels(prog, out=None):
+    out = [] if out is None else out
+    for o in prog:
+        if o[0] == "abs":
+            out.append(o[1])
+        if o[0] in ("sched", "rel", "abs"):
+            _abs_labels(o[-1], out)
+    return out
+
+
 def gen_case(rng):
-    allow_abs = rng.random() < 0.12
+    allow_abs = rng.random() < 0.15
     g = _Gen(rng, allow_abs, allow_raise=rng.random() < 0.15)
     prog = g.body(0, [], 0)
     if not _has(prog, ("sched", "rel", "abs")) or rng.random() < 0.3:
         prog = prog[:1] + [["sched", 900, g.body(1, [], 0)]] + prog[1:]
-    return {"op": "tr_seq", "sched": rng.choice(["tramp", "ct", "cts"]), "prog": prog, "clock": rng.choice([0, 0, 7])}
+    # absolute due times written in non-UTC zones (the same instants)
+    tz = {str(l): rng.choice([-11, -5, 2, 9]) for l in _abs_labels(prog) if rng.random() < 0.6}
+    return {"op": "tr_seq", "sched": rng.choice(["tramp", "ct", "cts"]), "prog": prog, "clock": rng.choice([0, 0, 7]), "tz": tz}
 
 
 def cases(rng, tier):
@@ -115,6 +127,9 @@ def cases(rng, tier):
            "prog": [["sched", 1, [["sched", 2, [["tick", 5]]], ["sched", 3, [["sched", 5, []], ["tick", 3]]], ["rel", 4, 100, []], ["cancel", 2], ["tick", 7]]]]}
     yield {"op": "tr_seq", "sched": "ct", "clock": 0,   # a raising action resets the trampoline; the next schedule starts fresh
            "prog": [["sched", 1, [["sched", 2, [["rel", 4, 5, []], ["raise"]]], ["sched", 3, []]]], ["sched", 5, []]]}
+    # an absolute due time written in a zone with a negative UTC offset is the same instant: runs after the earlier-due ones
+    yield {"op": "tr_seq", "sched": "ct", "clock": 0, "tz": {"2": -5, "5": 9},
+           "prog": [["sched", 1, [["abs", 2, 300, []], ["sched", 3, []], ["rel", 4, 100, []], ["abs", 5, 200, []]]]]}
     # a negative relative delay means "now": it must not overtake the actions already queued for "now"
     yield {"op": "tr_seq", "sched": "tramp", "clock": 0,
            "prog": [["sched", 1, [["sched", 2, []], ["sched", 3, []], ["rel", 4, -3, []], ["sched", 5, []]]]]}
@@ -211,6 +226,8 @@ def bucket(case, out):
     for k in ("rel", "abs", "cancel", "tick", "raise"):
         if _has(p, (k,)):
             yield "has:" + k
+    if case.get("tz"):
+        yield "abs-in-non-utc-zone"
     ev = out["events"]
     if any(e[0] == "wait" for e in ev):
         yield "waited"
